@@ -344,6 +344,32 @@ def c12(case, obs, crash):
                     v = rem[0] * 256 + rem[1]
                     if v in (5, 7, 9, 10) or v not in allowed or bytes(err[0][1]) != rem[2:]:
                         f.append((None, "UnknownVersion error for version %d (allowed %s)" % (v, allowed)))
+    # an allowed version the library has no decoder for, met at a packet boundary, is an
+    # UnknownVersion error carrying the unparsed bytes: never a silent stop, never another error
+    for k in bp:
+        for op, o in bp[k]:
+            R = get(o, "R")
+            x = op[2]
+            if not isinstance(R, list) or isinstance(R, canon.Pairs) or not x:
+                continue
+            pos = 0
+            last_err = None
+            for e in R:
+                if elem_kind(e) == "Error":
+                    last_err = e
+                    break
+                pos += wire_len(e)
+            if pos + 2 > len(x):
+                continue
+            v = int.from_bytes(x[pos : pos + 2], "big")
+            if v in (5, 7, 9, 10) or v not in op[3]:
+                continue
+            if last_err is None:
+                f.append((None, "parser %d: version %d is allowed and has no decoder, but the result stops silently at byte %d of %d instead of an UnknownVersion error" % (k, v, pos, len(x))))
+            else:
+                err = get(elem_body(last_err), "error")
+                if err[0][0] != "UnknownVersion" or bytes(get(elem_body(last_err), "remaining")) != x[pos:]:
+                    f.append((None, "parser %d: allowed version %d without a decoder at byte %d reported as %s, not as UnknownVersion carrying the unparsed bytes" % (k, v, pos, err[0][0])))
     if 2 in bp and len(bp[0]) == 1 and len(bp[2]) == 1:
         d = canon.diff(get(bp[0][0][1], "S"), get(bp[2][0][1], "S"), "S")
         if d:
@@ -424,7 +450,7 @@ def expected_caches(prev, R):
     """previous caches + the templates reported in R, last definition wins; also whether a V9
     packet failed (it may have cached the templates of its earlier flowsets)"""
     exp = {m: dict(cache_map(prev, m)) for m in ("v9_t", "v9_o", "ix_t", "ix_o")}
-    v9_error = False
+    v9_error = None
     for e in R:
         kind = elem_kind(e)
         if kind == "V9":
@@ -446,29 +472,30 @@ def expected_caches(prev, R):
         elif kind == "Error":
             rem = get(elem_body(e), "remaining")
             if len(rem) >= 2 and rem[0] == 0 and rem[1] == 9:
-                v9_error = True
-                failed_v9_templates(bytes(rem), exp)
+                v9_error = failed_v9_templates(bytes(rem), exp)
     return exp, v9_error
 
 
 def failed_v9_templates(p, exp):
     """A V9 packet that failed part-way: the complete template records of the flowsets BEFORE the
     failing one were received, so the parser must hold them (C06: latest definition received).
-    Walks only as far as is certain: leading template / options-template flowsets and data
-    flowsets of ids known as plain templates; stops at anything else.  Adds {id: marker} entries
-    with the (number, length) lists to compare against the cache."""
+    Walks only as far as is certain: the leading template / options-template flowsets; it stops
+    at the first data flowset (whose decoding may be what failed).  Adds {id: marker} entries with
+    the (number, length) lists to compare against the cache, and returns the bytes it did NOT
+    vouch for: a template id whose two bytes occur in them may have been redefined by a flowset
+    the parser got through before it failed, so nothing is claimed about such an id."""
     if len(p) < 20:
-        return
+        return p
     count = int.from_bytes(p[2:4], "big")
     pos = 20
     for _ in range(count):
         if pos + 4 > len(p):
-            return
+            return p[pos:]
         fid = int.from_bytes(p[pos : pos + 2], "big")
         ln = int.from_bytes(p[pos + 2 : pos + 4], "big")
         blen = max(ln - 4, 0)
         if pos + 4 + blen > len(p):
-            return
+            return p[pos:]
         body = p[pos + 4 : pos + 4 + blen]
         if fid == 0:
             q = 0
@@ -493,11 +520,10 @@ def failed_v9_templates(p, exp):
                 if tid >= 256:
                     exp["v9_o"][tid] = [("present",)]
                 q += 6 + need
-        elif fid in exp["v9_t"] and fid not in exp["v9_o"]:
-            pass
         else:
-            return
+            return p[pos:]
         pos += 4 + blen
+    return p[pos:]
 
 
 def caches_match(exp, S, maps):
@@ -536,11 +562,13 @@ def c06(case, obs, crash):
             exp, v9_error = expected_caches(prev, R)
             for m in ("v9_t", "v9_o", "ix_t", "ix_o"):
                 now = cache_map(S, m)
-                if v9_error and m.startswith("v9"):
+                if v9_error is not None and m.startswith("v9"):
                     # a V9 packet that failed part-way: the complete template records of its flowsets
                     # before the failing one were received and must be cached; further entries are
                     # allowed (records the walk above did not vouch for)
                     for tid, want in exp[m].items():
+                        if tid in now and tid.to_bytes(2, "big") in v9_error:
+                            continue
                         if tid not in now:
                             f.append((None, "parser %d: %s lacks id %d although a complete template record for it was received (in a packet that later failed, or earlier)" % (k, m, tid)))
                         elif isinstance(want[0], tuple):
@@ -722,6 +750,9 @@ def c04_packet(dec, p, e, pads, tables):
             exp_op = [{"field_type": tables.v9[n][0], "field_value": list(v)} for n, v in x[4]]
             if plain(sc) != exp_sc or plain(op) != exp_op:
                 f.append((None, "options data flowset %d: sent scope %r options %r, reported %r %r" % (i, exp_sc, exp_op, plain(sc), plain(op))))
+            elif len(x[6]) > 1:
+                # the first record is right; the result type has room for one record only
+                f.append(("K_C04_options_multi_record", "options data flowset %d (template %d): %d records sent, only the first is reported (the others are left in the padding)" % (i, x[1], len(x[6]))))
     return f
 
 
